@@ -46,7 +46,8 @@ ASSUMPTIONS = [
 SIG_COMP_MASS_SYM = "edit/component-mass-setter-ignores-symmetry-factor"
 SIG_SCALE_RAISES = "edit/changeNDensByFactor-raises-above-component"
 SIG_CART_FULL = "symmetry/cartesian-full-core-cut-through-center"
-EXCLUDE_KNOWN = {SIG_COMP_MASS_SYM: True, SIG_SCALE_RAISES: True, SIG_CART_FULL: True}
+# SIG_SCALE_RAISES and SIG_CART_FULL were repaired in /repo (fix: commits d096cbf, 971daf0): searched again; SIG_COMP_MASS_SYM is a known finding
+EXCLUDE_KNOWN = {SIG_COMP_MASS_SYM: True, SIG_SCALE_RAISES: False, SIG_CART_FULL: False}
 
 REL = 1e-10
 
